@@ -92,6 +92,77 @@ MODEL = {
 }
 
 
+RS, CP, CS, EP, ES = 'src/primitives/rectangle/styled.rs', 'src/primitives/circle/points.rs', 'src/primitives/circle/styled.rs', 'src/primitives/ellipse/points.rs', 'src/primitives/ellipse/styled.rs'
+RM, RP, RST = 'src/primitives/rounded_rectangle/mod.rs', 'src/primitives/rounded_rectangle/points.rs', 'src/primitives/rounded_rectangle/styled.rs'
+SM, SS, AP, AS = 'src/primitives/sector/mod.rs', 'src/primitives/sector/styled.rs', 'src/primitives/arc/points.rs', 'src/primitives/arc/styled.rs'
+PM, PP, PSI, PST = 'src/primitives/polyline/mod.rs', 'src/primitives/polyline/points.rs', 'src/primitives/polyline/scanline_iterator.rs', 'src/primitives/polyline/styled.rs'
+SC, DI, PS_, TSI, CTS = 'src/primitives/common/scanline.rs', 'src/primitives/common/distance_iterator.rs', 'src/primitives/common/plane_sector.rs', 'src/primitives/common/thick_segment_iter.rs', 'src/primitives/common/closed_thick_segment_iter.rs'
+TSX, TST = 'src/primitives/triangle/scanline_intersections.rs', 'src/primitives/triangle/styled.rs'
+MF, MM, MD = 'src/mono_font/mod.rs', 'src/mono_font/mapping.rs', 'src/mono_font/draw_target.rs'
+SRM, LS = 'src/primitives/rectangle/mod.rs', 'src/primitives/line/styled.rs'
+MODEL.update({
+    (P, 'Sub for Point::sub#2'): 'point_sub_size_ok', (S, 'Div for Size::div'): 'size_div_ok',
+    (R, 'Rectangle::with_center'): 'with_center_ok', (IP, 'IntersectionParams::from_lines'): 'from_lines_ok',
+    (LE, 'LinearEquation::from_line'): 'from_line_ok', (LE, 'OriginLinearEquation::distance'): 'dot_product_ok (Overflow2.plane_sector_contains_ok)',
+    (PSI, 'ScanlineIterator::empty'): 'literals only', ('src/primitives/triangle/scanline_iterator.rs', 'ScanlineIterator::empty'): 'literals only',
+    (PST, 'untranslated_bounding_box'): 'min / max fold from i32::MAX / i32::MIN (no arithmetic); with_corners_ok',
+    (TST, 'StyledDimensions for Triangle::styled_bounding_box'): 'min / max fold from i32::MAX / i32::MIN (no arithmetic); with_corners_ok',
+    (SRM, 'OffsetOutline for Rectangle::offset'): 'offset_ok',
+    (RS, 'StyledDrawable for Rectangle::draw_styled'): 'Overflow2.rect_solid_borders_ok, Overflow2.rect_dotted_int_ok',
+    (RS, 'dot_positions_with_dotted_corners'): 'Overflow2.rect_dotted_int_ok (integer part; the positions are Real arithmetic: search only, p_fixed_point)',
+    (RS, 'dot_positions_in_clockwise_order'): 'Overflow2.rect_dotted_int_ok (integer part; the positions are Real arithmetic: search only, p_fixed_point)',
+    (RS, 'draw_dotted_rectangle_border_with_dotted_corners'): 'Overflow2.rect_dotted_int_ok',
+    (RS, 'draw_dotted_rectangle_border_in_clockwise_order'): 'Overflow2.rect_dotted_int_ok',
+    (CP, 'Iterator for Scanlines::next'): 'Overflow2.scan_probe_ok, Overflow2.scan_shorten_ok',
+    (CS, 'Iterator for StyledScanlines::next'): 'Overflow2.scan_probe_ok, Overflow2.scan_shorten_ok',
+    (EP, 'Iterator for Scanlines::next'): 'Overflow2.ellipse_scan_row_ok, Overflow2.ellipse_scan_probe_ok, Overflow2.scan_shorten_ok',
+    (ES, 'Iterator for StyledScanlines::next'): 'Overflow2.ellipse_scan_row_ok, Overflow2.ellipse_scan_probe_ok, Overflow2.scan_shorten_ok',
+    (RM, 'RoundedRectangle::get_confined_corner_quadrant'): 'Overflow2.confined_quadrant_ok',
+    (RM, 'OffsetOutline for RoundedRectangle::offset'): 'Overflow2.rrect_offset_ok',
+    (RM, 'RoundedRectangleContains::new'): 'Overflow2.rrect_contains_new_ok (contains: Overflow2.rrect_contains_ok)',
+    (RP, 'Iterator for Scanlines::next'): 'Overflow2.rrect_scan_end_ok (and ellipse_quadrant_contains_ok)',
+    (RST, 'Iterator for StyledScanlines::next'): 'Overflow2.rrect_scan_end_ok (and ellipse_quadrant_contains_ok)',
+    (AP, 'Points::new'): 'circle_offset_ok (offset -1)', (AS, 'StyledPixelsIterator::new'): 'circle_offset_ok (stroke and fill area offsets)',
+    (SM, 'Sector::center_2x'): 'circle_center_2x_ok', (SM, 'OffsetOutline for Sector::offset'): 'circle_offset_ok',
+    (SM, 'ContainsPoint for Sector::contains'): 'Overflow2.sector_contains_ok',
+    (SS, 'StyledPixelsIterator::new'): 'Overflow2.sector_thresholds_ok (integer part; the bevel angles are Real arithmetic: search only)',
+    (LS, 'StyledPixelsIterator::new'): 'styled_line_new_ok',
+    (PM, 'Dimensions for Polyline::bounding_box'): 'Overflow2.polyline_vertices_ok',
+    (PP, 'Points::new'): 'Overflow2.polyline_vertices_ok', (PP, 'Iterator for Points::next'): 'Overflow2.polyline_vertices_ok (and line_points_ok)',
+    (PSI, 'ScanlineIterator::new'): 'debug_assert!(vertices.len() > 1): guarded by the caller (styled.rs draws thick polylines only with > 1 vertices); search only',
+    (PST, 'Iterator for StyledPixelsIterator::next'): 'Overflow2.polyline_vertices_ok (point + translate)',
+    (SC, 'Scanline::extend'): 'Overflow2.scanline_extend_ok', (SC, 'Scanline::touches'): 'Overflow2.scanline_touches_ok',
+    (SC, 'Scanline::try_extend'): 'Overflow2.scanline_touches_ok (debug_assert_eq!(self.y, other.y): callers pass scanlines of one row)',
+    (SC, 'Scanline::to_rectangle'): 'Overflow2.scanline_width_ok', (SC, 'Scanline::draw'): 'Overflow2.scanline_width_ok',
+    (DI, 'Iterator for DistanceIterator::next'): 'Overflow2.scan_probe_ok',
+    (PS_, 'PlaneSector::new'): 'Real arithmetic on angles (external; f32 cannot panic, I16F16: search only, p_fixed_point)',
+    (PS_, 'PlaneSector::point_type'): 'Overflow2.point_type_ok',
+    (TSI, 'Iterator for ThickSegmentIter::next'): 'Overflow2.segment_iter_last_ok (and OverflowWalk.join_from_points_ok)',
+    (CTS, 'ClosedThickSegmentIter::new'): 'Overflow2.closed_iter_new_ok', (CTS, 'Iterator for ClosedThickSegmentIter::next'): 'Overflow2.closed_iter_next_ok',
+    (TSX, 'ScanlineIntersections::edge_intersections'): 'Overflow2.edge_intersections_ok',
+    (MF, 'MonoFont::glyph'): 'Overflow2.glyph_ok', (MF, 'PartialEq for MonoFont::eq'): 'pointer casts only (no panic site)',
+    (MF, 'DecorationDimensions::default_strikethrough'): 'saturating_sub, / 2: no panic site',
+    (MF, 'DecorationDimensions::default_underline'): 'Overflow2.default_underline_ok', (MF, 'DecorationDimensions::get_bounding_box'): 'Overflow2.decoration_box_ok',
+    (MM, 'StrGlyphMapping::ranges'): 'Overflow2.mapping_range_ok', (MM, 'macro impl_mapping'): 'constant items, evaluated by rustc',
+})
+# whole files covered by another builder's C08 part or external arithmetic: recorded by reference, so that a change forces a re-read there
+BYREF = [
+    ('core/src/pixelcolor/raw/load_store.rs', 'by reference: C08_raw (Proofs/RawOverflow.v site lists)'),
+    ('src/iterator/raw.rs', 'by reference: C08_raw (Proofs/RawOverflow.v site lists)'),
+    ('src/framebuffer.rs', 'by reference: C08_raw (Proofs/RawOverflow.v, Proofs/Framebuffer.v)'),
+    ('src/draw_target/clipped.rs', 'by reference: C08_targets (Model/TargetOk.v)'),
+    ('src/draw_target/cropped.rs', 'by reference: C08_targets (Model/TargetOk.v)'),
+    ('src/draw_target/translated.rs', 'by reference: C08_targets (Model/TargetOk.v)'),
+    ('src/draw_target/color_converted.rs', 'by reference: C08_targets (Model/TargetOk.v)'),
+    ('src/draw_target/mod.rs', 'by reference: C08_targets (Model/TargetOk.v)'),
+    ('src/iterator/pixel.rs', 'by reference: C08_targets (Model/TargetOk.v); point + offset = point_add_ok'),
+    ('src/image/sub_image.rs', 'by reference: C08_image (Model/Imageraw.v); K08_subimage_area_overflow'),
+    ('src/geometry/angle.rs', 'Real / f32 arithmetic on angles (external: f32 cannot panic; I16F16: search only, p_fixed_point)'),
+    ('src/geometry/real.rs', 'Real / f32 arithmetic (external: f32 cannot panic; I16F16: search only, p_fixed_point)'),
+    ('src/mono_font/draw_target.rs', 'unreachable!() in methods of the internal MonoFontDrawTarget that the crate never calls (search only)'),
+]
+
+
 def main():
     rows = []
     for f in G.FILES:
@@ -102,6 +173,15 @@ def main():
     for f, q, line, sk in rows:
         if re.fullmatch(r'[0-9 ()]*', sk):
             continue
+        if (f, q) not in MODEL and re.fullmatch(r'([0-9() ]|cmp:\S+)*', sk):
+            MODEL[(f, q)] = 'comparisons with literals only (guards; no panic site)'
+        if (f, q) not in MODEL and 'Transform for' in q and re.fullmatch(r'(add=?|\.offset\( \)| )+', sk):
+            MODEL[(f, q)] = 'point_add_ok'
+        if (f, q) not in MODEL and q.endswith('::styled_bounding_box') and sk == '.saturating_as .offset( )':
+            MODEL[(f, q)] = 'rect_stroke_area_ok (offset of the bounding box by the outside stroke width)'
+        for pat, why in BYREF:
+            if (f, q) not in MODEL and f == pat:
+                MODEL[(f, q)] = why
         if (f, q) in MODEL:
             seen.add((f, q))
             rec.append('  (%s, %s, %s, %s)' % tuple(G.coq_str(x) for x in (f, q, sk, MODEL[(f, q)])))
